@@ -30,6 +30,9 @@ class Report(object):
         self.known_hits = {}
         self.n = 0
         self.sigs = set()
+        import glob
+        for f in glob.glob(os.path.join(common.FAILDIR, '%s-*.json' % pid)):
+            os.remove(f)
 
     def failure(self, sig, replay_obj):
         for k in self.known:
